@@ -11,11 +11,23 @@ The settings a view belongs to are *decoded from the drawn numbers*: for every s
 of the harness' tables is computed with the library called directly (`qats.app.funcs.calculate_*` on series read by a separate `TsDB`) and
 matched against line / bar / cell data.
 
+The specification side is the harness' OWN record of what the user did, never read back from the window: the files imported successfully
+(in order), the rows of the list with the tick marks the user set (tick / untick the i-th LISTED row, select all / unselect all act on the
+listed rows = rows whose text contains the filter text, a successful import lists everything unticked, a failed one changes nothing), the
+processing settings and the application settings chosen in File > Settings (`set:<ok>:<normalised>:<segment length>:<bins>`, '-' = widget
+not touched; the dialog's `exec_` is replaced by a script that edits the dialog's own widgets and presses OK or Cancel).  The Lean model has
+no application settings: visits to the dialog are left out of the history sent to the model (its view tokens do not depend on them) and a
+drop of files is sent as an import; the dialog is only opened while no display request is being processed (otherwise: finding K2).
+
 Oracles (implementation alone), evaluated whenever the queue is empty:
   O1  rows == db.list(relative=True), status text == "<n> time series in database";
-  O2  a failed import changes neither database nor rows, a successful one adds exactly the keys of its files (checked at the completion);
-  O3  each of the five views shows exactly the series ticked (and visible) at the most recent display request since the last clear, with
-      the numbers of the settings at that request (plots: last request with a non-empty selection; table: last request).
+  O2  a failed import changes neither database nor rows (nor tick marks), a successful one adds exactly the keys of its files (checked at
+      the completion);
+  O3  each of the five views shows exactly the series the USER ticked (among the listed rows) at the most recent display request since the
+      last clear, with the numbers of the settings at that request (plots: last request with a non-empty selection; table: last request):
+      window, filter, maxima/minima, show-in-plot, and for spectrum / cycle histogram the segment length, normalisation and number of bins
+      as the user left them in the settings dialog (accepted untouched = unchanged, cancelled = unchanged).  At the request itself the
+      queued read worker must name exactly the user's selection.
       Every cell of the statistics table must be the formatted number the library returns (a row that equals no library result is reported
       cell by cell); the catalogue has series whose min / max is exactly 0.0.
       When a view shows the right series and settings as decoded through `qats.app.funcs`, it is decoded a second time against the
@@ -59,6 +71,11 @@ TWINS = [(0.0, 1_000_000_000.0), (10.0, 100.0), (20.5, 70.25)]
 FILTS = [None, ("lp", 1.0), ("hp", 0.5)]
 NBINS = 12
 NPERSEG = 20000
+# application settings (File > Settings): (length of the PSD segments, normalised PSD, number of bins of the cycle histogram).  The window
+# starts with DEFAULT_CFG; the values a user types into the dialog are taken from the pools (all inside the ranges of the spin boxes)
+DEFAULT_CFG = (NPERSEG, False, NBINS)
+SET_NPERSEG = (256, 100)
+SET_NBINS = (25, 10)
 # file id -> (number of samples, time step): the files do NOT share a time array -- series of one request differ in length (in file order
 # shorter-then-longer: 1,2 / 4,5 / 3,1 and longer-then-shorter: 2,3 / 5,4 ...) and in time step (file 3), also inside the time windows
 GRID = {1: (1000, 0.1), 2: (1200, 0.1), 3: (700, 0.2), 4: (900, 0.1), 5: (1300, 0.1)}
@@ -66,9 +83,11 @@ GRID = {1: (1000, 0.1), 2: (1200, 0.1), 3: (700, 0.2), 4: (900, 0.1), 5: (1300, 
 CONTAINERS = [[(3, 6), (1, 1), (2, 4)], [(5, 9), (4, 8), (3, 6)], [(1, 2), (1, 3), (4, 7), (5, 7), (2, 5)]]
 DISP = ("R", "Ct", "Cs", "Cp", "Cr")
 VIEWS = ("tr", "sp", "wb", "cy", "tb")
-RULE = ("histories over {import (new / loaded / missing / same file twice / new+loaded), clear, tick, (un)select all, list filter, display, "
-        "Gumbel plot, window, filter, maxima/minima, show-in-plot, complete i}: fixed corner histories (serial, overlapping requests, late "
-        "settings, clear in flight, failed imports, single-series file, hidden ticked rows) + seeded random histories generated against the "
+RULE = ("histories over {import through the file dialog or by dropping files (new / loaded / missing / same file twice / new+loaded), clear, tick, "
+        "(un)select all, list filter, display, Gumbel plot, window, filter, maxima/minima, show-in-plot, File > Settings (OK / Cancel, widgets "
+        "untouched or edited: normalised spectrum, segment length, number of bins; only while no request is processed), complete i}: fixed "
+        "corner histories (serial, overlapping requests, late settings, clear in flight, failed imports before a display, single-series file, "
+        "hidden ticked rows, (un)select all under a filter that hides earlier rows, settings dialog) + seeded random histories generated against the "
         "live queue (random completion order, drained at the end); thorough adds the 162 canonical completion patterns of two overlapping "
         "requests (x 4 variants of what changes in between) and sampled completion permutations; non-trivial = a display request was completed; distinct by event list")
 
@@ -132,6 +151,24 @@ class FakeDialog:
         return "", ""
 
 
+def _scripted_exec(dlg):
+    """stands for the modal event loop of the settings dialog: the user edits the widgets named in the script, then accepts or cancels"""
+    from qtpy.QtWidgets import QDialog
+    acc, norm, nps, nb = _scripted_exec.script
+    _scripted_exec.shown += 1
+    if norm is not None:
+        dlg.psdnormcheckbox.setChecked(bool(norm))
+    if nps is not None:
+        dlg.psdnpersegspinbox.setValue(int(nps))
+    if nb is not None:
+        dlg.rfcnbinsspinbox.setValue(int(nb))
+    return QDialog.Accepted if acc else QDialog.Rejected
+
+
+_scripted_exec.script = (False, None, None, None)
+_scripted_exec.shown = 0
+
+
 class Env:
     """temporary files, reference results of the library, the window"""
 
@@ -144,6 +181,10 @@ class Env:
         self.root = tempfile.mkdtemp(prefix="qv19_")
         gui.SETTINGS_FILE = os.path.join(self.root, "qats.settings")
         gui.QFileDialog = FakeDialog
+        # the settings dialog is never shown: `exec_` performs the scripted edits of the user on the dialog's own widgets and presses OK / Cancel
+        gui.SettingsDialog.exec_ = _scripted_exec
+        gui.SettingsDialog.exec = _scripted_exec
+        self.cfg = DEFAULT_CFG           # application settings the reference numbers of spectrum / cycle histogram are computed for
         rng = np.random.default_rng(20190919)
         with contextlib.redirect_stdout(io.StringIO()):
             for f, names in CATALOGUE.items():
@@ -193,9 +234,14 @@ class Env:
         r["wb_p"] = np.log(np.log(1. / (1. - p)))
         return r
 
+    def _cfgkey(self, kind):
+        """the application settings a kind of result depends on"""
+        return (self.cfg[0], self.cfg[1]) if kind == "psd" else ((self.cfg[2],) if kind == "rfc" else ())
+
     def lib(self, kind, key, tw, fl, mn=False):
         """results of qats.app.funcs.calculate_* (what the workers compute) for one series of the catalogue"""
-        ck = (kind, key, tw, fl, mn)
+        nps, norm, nb = self.cfg
+        ck = (kind, key, tw, fl, mn) + self._cfgkey(kind)
         if ck not in self.cache:
             from qats.app import funcs
             c = {"x": self.ref[key]}
@@ -203,9 +249,9 @@ class Env:
             if kind == "trace":
                 r = funcs.calculate_trace(c, twin, fargs)["x"]
             elif kind == "psd":
-                r = funcs.calculate_psd(c, twin, fargs, NPERSEG, False)["x"]
+                r = funcs.calculate_psd(c, twin, fargs, nps, norm)["x"]
             elif kind == "rfc":
-                r = funcs.calculate_rfc(c, twin, fargs, NBINS)["x"]
+                r = funcs.calculate_rfc(c, twin, fargs, nb)["x"]
             else:
                 r = self._derive_stats(funcs.calculate_stats(c, twin, fargs, minima=mn)["x"], mn)
             self.cache[ck] = r
@@ -214,7 +260,8 @@ class Env:
     def direct(self, kind, key, tw, fl, mn=False):
         """the same numbers from the library proper: TimeSeries methods called with the window and filter (qats.app.funcs not involved);
         same layout as `lib`"""
-        ck = ("direct", kind, key, tw, fl, mn)
+        nps, norm, nb = self.cfg
+        ck = ("direct", kind, key, tw, fl, mn) + self._cfgkey(kind)
         if ck not in self.cache:
             from qats.fatigue.rainflow import rebin
             ts = self.ref[key]
@@ -227,9 +274,9 @@ class Env:
             elif kind == "psd":
                 # documented choices of the spectrum view: resampled to the average step, 10 % taper, one segment of at most NPERSEG samples
                 n = ts.get(twin=TWINS[tw], resample=ts.dt)[0].size
-                r = tuple(ts.psd(nperseg=min(NPERSEG, n), normalize=False, resample=ts.dt, taperfrac=0.1, **kw))
+                r = tuple(ts.psd(nperseg=min(nps, n), normalize=bool(norm), resample=ts.dt, taperfrac=0.1, **kw))
             elif kind == "rfc":
-                cyc = rebin(ts.rfc(**kw), binby="range", n=NBINS)
+                cyc = rebin(ts.rfc(**kw), binby="range", n=nb)
                 r = (tuple(c[0] for c in cyc), tuple(c[2] for c in cyc))
             else:
                 r = self._derive_stats(ts.stats(statsdur=10800., quantiles=(0.37, 0.57, 0.9), is_minima=mn, include_sample=True, **kw), mn)
@@ -240,6 +287,7 @@ class Env:
         """different settings give different numbers (otherwise the views could not be decoded); O4: funcs honour their arguments"""
         from qats.fatigue.rainflow import rebin
         nfail0, indistinct = len(chk.failing), []
+        self.cfg = DEFAULT_CFG
         for key in self.allkeys:
             ts = self.ref[key]
             seen = {}
@@ -316,26 +364,46 @@ class Env:
         for _ in range(4 if chk.quick else 30):
             keys = chk.rng.sample(self.allkeys, chk.rng.randint(2, 4))
             self.container_check(chk, keys, chk.rng.randrange(len(TWINS)), chk.rng.randrange(len(FILTS)), chk.rng.random() < 0.5)
+        # ... and for application settings other than the initial ones (what the user may choose in File > Settings)
+        for i, cfg in enumerate([(SET_NPERSEG[0], True, SET_NBINS[0]), (SET_NPERSEG[1], False, SET_NBINS[1]), (NPERSEG, True, NBINS)]):
+            self.container_check(chk, CONTAINERS[i % len(CONTAINERS)], i % len(TWINS), (i + 1) % len(FILTS), bool(i % 2), cfg=cfg)
+        for _ in range(0 if chk.quick else 12):
+            keys = chk.rng.sample(self.allkeys, chk.rng.randint(2, 4))
+            cfg = (chk.rng.choice(SET_NPERSEG + (NPERSEG,)), chk.rng.random() < 0.5, chk.rng.choice(SET_NBINS + (NBINS,)))
+            self.container_check(chk, keys, chk.rng.randrange(len(TWINS)), chk.rng.randrange(len(FILTS)), chk.rng.random() < 0.5, cfg=cfg)
         if indistinct and len(chk.failing) == nfail0:
             raise core.InfraError("C19 reference data: " + "; ".join(indistinct[:3]))
 
-    def container_check(self, chk, keys, tw, fl, mn):
+    def container_check(self, chk, keys, tw, fl, mn, cfg=DEFAULT_CFG):
         """O4 for a container of several series (what one display request hands to each calculation worker): for every series the numbers
-        are those the library proper returns for THAT series with the window / filter / maxima-minima choice.  Returns the failures."""
+        are those the library proper returns for THAT series with the window / filter / maxima-minima choice and the application settings
+        `cfg` (segment length, normalised spectrum, number of bins).  Returns the failures."""
         from qats.app import funcs
         keys = [tuple(k) for k in keys]
         names = [kstr(k) for k in keys]
         inp = dict(kind="funcs", keys=names, twin=tw, filt=fl, minima=bool(mn))
+        if tuple(cfg) != DEFAULT_CFG:
+            inp["cfg"] = list(cfg)
         twin, fargs = TWINS[tw], FILTS[fl]
         found = []
+        saved, self.cfg = self.cfg, (int(cfg[0]), bool(cfg[1]), int(cfg[2]))
+        try:
+            self._container_check(chk, keys, names, inp, tw, fl, mn, twin, fargs, found)
+        finally:
+            self.cfg = saved
+        return found
+
+    def _container_check(self, chk, keys, names, inp, tw, fl, mn, twin, fargs, found):
+        from qats.app import funcs
+        nps, norm, nb = self.cfg
 
         def bad(what, name, exp, obs):
             found.append((what, name))
             chk.fail("O4 %s called with a container of several series (one display request) returns for every series of the container "
                      "the numbers the library gives for that series and the settings of the request" % what, inp, exp, obs, series=name)
         calls = (("calculate_trace", lambda c: funcs.calculate_trace(c, twin, fargs)),
-                 ("calculate_psd", lambda c: funcs.calculate_psd(c, twin, fargs, NPERSEG, False)),
-                 ("calculate_rfc", lambda c: funcs.calculate_rfc(c, twin, fargs, NBINS)),
+                 ("calculate_psd", lambda c: funcs.calculate_psd(c, twin, fargs, nps, norm)),
+                 ("calculate_rfc", lambda c: funcs.calculate_rfc(c, twin, fargs, nb)),
                  ("calculate_stats", lambda c: funcs.calculate_stats(c, twin, fargs, minima=bool(mn))))
         for what, call in calls:
             chk.count("funcs-container")
@@ -370,7 +438,6 @@ class Env:
                     diff = [q for q in nums if q not in r or not close(r[q], d[q])]
                     if diff or not close(np.sort(np.asarray(r.get("sample", []), dtype=float)), np.sort(d["sample"])):
                         bad(what, nm, {q: float(d[q]) for q in diff} or "sample of TimeSeries.stats", {q: (float(r[q]) if q in r else None) for q in diff} or "different sample")
-        return found
 
     # ---- window --------------------------------------------------------------------------------------------------------------------
     def new_window(self):
@@ -379,6 +446,7 @@ class Env:
         self.windows += 1
         self.pool = Pool()
         w.threadpool = self.pool
+        w.settings.clear()              # (the settings file of the temporary directory does not exist: nothing was loaded)
         w.settings["rfc_nbins"] = NBINS
         for c in (w.history_canvas, w.spectrum_canvas, w.weibull_canvas, w.cycles_canvas):
             c.draw = lambda: None           # pixels are not observed
@@ -398,8 +466,12 @@ class Env:
         w = self.win
         self.pool.q.clear()
         self.pool.ctx = "?"
-        w.on_clear()
+        if w.db.n or w.db_source_model.rowCount() or w.stats_table.rowCount() or any(
+                ax.get_lines() or ax.containers for ax in (w.history_axes, w.spectrum_axes, w.weibull_axes, w.cycles_axes)):
+            w.on_clear()                # (a window that is empty already is not cleared again: clearing four axes is the expensive part)
         w.db_view_filter_pattern.setText("")
+        w.settings.clear()
+        w.settings["rfc_nbins"] = NBINS
         self.set_ui(0, 0, False, False)
         while w.tabs.count() > 5:
             w.tabs.close_tab(w.tabs.count() - 1)
@@ -475,26 +547,27 @@ def _idx(table, v):
     return "?"
 
 
+def obs_pending_one(env, wk):
+    k = wk._kind
+    if k == "I":
+        ids = []
+        for p in wk.args[0]:
+            f = env.file_of_path(p)
+            ids.append("?" if f is None else str(f))
+        return "I" + ",".join(ids)
+    if k in ("R", "G"):
+        ks = [env.key_of_path(p) for p in wk.args[1]]
+        return k + (",".join("?" if x is None else kstr(x) for x in ks) if ks else "-")
+    if k in ("Ct", "Cs", "Cp", "Cr"):
+        mn = bool(wk.kwargs.get("minima", False))
+        return "%s:%s:%s:%s:%d" % (k, env.ts_tok(wk.args[0]), _idx(TWINS, wk.args[1]), _idx(FILTS, wk.args[2]), mn)
+    if k == "H":
+        return "H%s:%s:%s" % (env.ts_tok(wk.args[0]), _idx(TWINS, wk.args[1]), _idx(FILTS, wk.args[2]))
+    return "?"
+
+
 def obs_pending(env):
-    out = []
-    for wk in env.pool.q:
-        k = wk._kind
-        if k == "I":
-            ids = []
-            for p in wk.args[0]:
-                f = env.file_of_path(p)
-                ids.append("?" if f is None else str(f))
-            out.append("I" + ",".join(ids))
-        elif k in ("R", "G"):
-            ks = [env.key_of_path(p) for p in wk.args[1]]
-            out.append(k + (",".join("?" if x is None else kstr(x) for x in ks) if ks else "-"))
-        elif k in ("Ct", "Cs", "Cp", "Cr"):
-            mn = bool(wk.kwargs.get("minima", False))
-            out.append("%s:%s:%s:%s:%d" % (k, env.ts_tok(wk.args[0]), _idx(TWINS, wk.args[1]), _idx(FILTS, wk.args[2]), mn))
-        elif k == "H":
-            out.append("H%s:%s:%s" % (env.ts_tok(wk.args[0]), _idx(TWINS, wk.args[1]), _idx(FILTS, wk.args[2])))
-        else:
-            out.append("?")
+    out = [obs_pending_one(env, wk) for wk in env.pool.q]
     return ";".join(out) if out else "-"
 
 
@@ -709,9 +782,20 @@ def obs_db(env):
 OBSERVERS = dict(tr=obs_trace, sp=obs_spectrum, wb=obs_weibull, cy=obs_cycles, tb=obs_table)
 
 
-def observe(env):
-    return dict(db=obs_db(env), rows=obs_rows(env), st=obs_status(env), pend=obs_pending(env), tr=obs_trace(env), sp=obs_spectrum(env),
-                wb=obs_weibull(env), cy=obs_cycles(env), tb=obs_table(env), tabs=obs_tabs(env))
+def observe(env, cfgs=None):
+    """`cfgs`: application settings the spectrum and the cycle histogram may have been computed for (the first one is tried first and is
+    `env.cfg` afterwards); default: `env.cfg` alone"""
+    d = dict(db=obs_db(env), rows=obs_rows(env), st=obs_status(env), pend=obs_pending(env), tr=obs_trace(env),
+             wb=obs_weibull(env), tb=obs_table(env), tabs=obs_tabs(env))
+    cfgs = list(cfgs or [env.cfg])
+    for v, f in (("sp", obs_spectrum), ("cy", obs_cycles)):
+        for cfg in cfgs:
+            env.cfg = cfg
+            d[v] = f(env)
+            if "?" not in d[v]:
+                break
+    env.cfg = cfgs[0]
+    return d
 
 
 def parse_digest(tok):
@@ -728,24 +812,6 @@ def parse_digest(tok):
 # ------------------------------------------------------------------------------------------------------------------------------------
 # the specification, tracked from what the user sees and does
 # ------------------------------------------------------------------------------------------------------------------------------------
-def visible_ticked(env, loaded=None):
-    """keys of the ticked rows shown in the list view (read through the view's model, as the user sees it); a bare series name that
-    exists on several files belongs to the file the user has loaded (`loaded`: the harness' own record of successful imports)"""
-    from qtpy.QtCore import Qt
-    pm = env.win.db_proxy_model
-    out = []
-    for r in range(pm.rowCount()):
-        ix = pm.index(r, 0)
-        state = pm.data(ix, Qt.CheckStateRole)
-        state = getattr(state, "value", state)
-        if int(state) != 0:
-            ks = env.cands_of_label(pm.data(ix))
-            if len(ks) > 1 and loaded is not None:
-                ks = [k for k in ks if k[0] in loaded]
-            out.append(ks[0] if len(ks) == 1 else None)
-    return out
-
-
 def req_tok(r):
     if r is None:
         return "-"
@@ -787,22 +853,55 @@ class Runner:
         self.displays_done = 0
         self.loaded = set()                      # files the user has imported successfully since the last clear (harness' own record)
         self.lib_checked = set()                 # (view, content) already compared with the library proper in this history
+        # the harness' own record of what the user did (never read back from the window): series imported successfully, in order; the rows
+        # of the list with the tick marks the user set; the text typed into the list filter; the application settings chosen in the dialog
+        self.sdb = []                            # keys
+        self.srows = []                          # [key, row text, ticked]
+        self.spat = ""
+        self.cfg = list(DEFAULT_CFG)
+        self.rp_cfg = DEFAULT_CFG                # application settings at the most recent display request that was not empty
+        self.req_cfgs = [DEFAULT_CFG]
+        env.cfg = DEFAULT_CFG
+        self.dialogs = 0
 
     busy = property(lambda self: any(wk._kind in DISP for wk in self.env.pool.q))
+
+    # ---- the list as the user has built it ----------------------------------------------------------------------------------------------
+    def relist(self):
+        """rows after a successful import: the listing of the database (name alone while everything comes from one file), nothing ticked"""
+        one = len(set(k[0] for k in self.sdb)) <= 1
+        self.srows = [[k, sname(k[1]) if one else fname(k[0]) + "/" + sname(k[1]), False] for k in self.sdb]
+
+    def listed(self):
+        """rows shown in the list view: those whose text contains the filter text (wildcard filter '*text*', not case sensitive)"""
+        return [r for r in self.srows if self.spat.lower() in r[1].lower()]
+
+    def user_selection(self):
+        """keys of the ticked rows among the listed ones, in list order"""
+        return [r[0] for r in self.listed() if r[2]]
 
     def do(self, ev):
         env, w, pool = self.env, self.env.win, self.env.pool
         p = ev.split(":")
         op = p[0]
         pool.ctx = op
-        if op == "imp":
-            FakeDialog.files = [env.path(int(f)) for f in p[1].split(",")] if len(p) > 1 and p[1] not in ("", "-") else []
-            w.on_import()
+        if op in ("imp", "drop"):
+            files = [env.path(int(f)) for f in p[1].split(",")] if len(p) > 1 and p[1] not in ("", "-") else []
+            if op == "imp":                           # File > Import: the files chosen in the file dialog
+                FakeDialog.files = files
+                w.on_import()
+            else:                                     # the same files dragged from a file manager and dropped on the window
+                from qtpy.QtCore import QMimeData, QPointF, QUrl, Qt
+                from qtpy.QtGui import QDropEvent
+                mime = QMimeData()
+                mime.setUrls([QUrl.fromLocalFile(f) for f in files])
+                w.dropEvent(QDropEvent(QPointF(5., 5.), Qt.CopyAction, mime, Qt.LeftButton, Qt.NoModifier))
         elif op == "clr":
             self.shape["clear_busy"] |= self.busy
             w.on_clear()
             self.rp = self.rt = None
             self.loaded = set()
+            self.sdb, self.srows = [], []
         elif op == "chk":
             from qtpy.QtCore import Qt
             pm = w.db_proxy_model
@@ -810,21 +909,63 @@ class Runner:
             if i < pm.rowCount():
                 it = w.db_source_model.itemFromIndex(pm.mapToSource(pm.index(i, 0)))
                 it.setCheckState(Qt.Checked if p[2] == "1" else Qt.Unchecked)
+            vis = self.listed()
+            if i < len(vis):
+                vis[i][2] = (p[2] == "1")
         elif op == "all":
             w.select_button.click()
+            for r in self.listed():
+                r[2] = True
         elif op == "non":
             w.unselect_button.click()
+            for r in self.listed():
+                r[2] = False
         elif op == "pat":
-            w.db_view_filter_pattern.setText("" if p[1] == "-" else (fname(int(p[1][1:])) if p[1][0] == "f" else sname(int(p[1][1:]))))
+            # text typed into the filter box: '-' erased, f<i> a file name, n<i> a series name, N<i> the series name in capitals (the
+            # filter is not case sensitive unless the user asks for it)
+            self.spat = "" if p[1] == "-" else (fname(int(p[1][1:])) if p[1][0] == "f" else
+                                                (sname(int(p[1][1:])).upper() if p[1][0] == "N" else sname(int(p[1][1:]))))
+            w.db_view_filter_pattern.setText(self.spat)
+        elif op == "set":
+            # File > Settings: the dialog opens with the current settings; the user edits some widgets ('-': not touched) and presses
+            # OK (1) or Cancel (0).  set:<ok>:<normalised 0|1|->:<segment length|->:<bins|->
+            acc = p[1] == "1"
+            vals = [None if v == "-" else int(v) for v in (p[2:5] + ["-", "-", "-"])[:3]]
+            if self.busy:
+                self.shape["late_setting"] = True
+                self.shape["late_values"].append(ev)
+            _scripted_exec.script = (acc, vals[0], vals[1], vals[2])
+            shown0 = _scripted_exec.shown
+            w.on_open_settings()
+            self.dialogs += _scripted_exec.shown - shown0
+            for d in w.findChildren(env.gui.SettingsDialog):
+                d.deleteLater()
+            if acc:
+                if vals[1] is not None:
+                    self.cfg[0] = vals[1]
+                if vals[0] is not None:
+                    self.cfg[1] = bool(vals[0])
+                if vals[2] is not None:
+                    self.cfg[2] = vals[2]
         elif op == "dsp":
-            sel = visible_ticked(env, self.loaded)
+            sel = self.user_selection()
             req = (sel, tuple(self.ui))
             self.rt = req
             self.shape["overlap"] |= self.busy        # also a refused request (nothing ticked) resets the table
             if sel:
                 self.shape["requests"].append(kstrs(sel))
                 self.rp = req
+                self.rp_cfg = tuple(self.cfg)
+                if self.rp_cfg not in self.req_cfgs:
+                    self.req_cfgs.append(self.rp_cfg)
+            nq = len(pool.q)
             w.display_button.click()
+            got = [obs_pending_one(env, wk) for wk in pool.q[nq:]]
+            want = ["R" + kstrs(sel)] if sel else []
+            if got != want:
+                self.fails.append(("O3 a display request is made for exactly the series the user has ticked among the listed rows (tick / untick, "
+                                   "select all / unselect all act on the listed rows; a successful import lists everything unticked)",
+                                   want or "no request", got or "no request", dict(view="request")))
         elif op == "gum":
             w.on_create_gumbel_plot()
         elif op in ("tw", "fl", "mn", "sm"):
@@ -849,7 +990,9 @@ class Runner:
         else:
             raise core.InfraError("C19: unknown event " + ev)
         self.events.append(ev)
-        o = observe(env)
+        # when idle the plots belong to the most recent request: they are decoded against the application settings of that request only;
+        # while workers are queued a plot may still be the one of an earlier request of this history
+        o = observe(env, [self.rp_cfg] + ([c for c in self.req_cfgs if c != self.rp_cfg] if pool.q else []))
         o["rp"], o["rt"] = req_tok(self.rp), req_tok(self.rt)
         self.digests.append(o)
         if not pool.q:
@@ -860,11 +1003,13 @@ class Runner:
         env = self.env
         ids = [env.file_of_path(p) for p in wk.args[0]]
         new = [(f, n) for f in ids for n in CATALOGUE.get(f, [])]
-        had = before[0].split(",") if before[0] != "-" else []
+        had = [kstr(k) for k in self.sdb]
         ok = all(f in CATALOGUE for f in ids) and len(set(new)) == len(new) and not any(kstr(k) in had for k in new)
         after = (obs_db(env), obs_rows(env))
         if ok:
             self.loaded |= set(ids)
+            self.sdb += new
+            self.relist()
         if not ok:
             if after != before:
                 self.fails.append(("O2 a failed import (file already loaded / unreadable) changes neither database nor list", "db=%s rows=%s" % before,
@@ -898,10 +1043,13 @@ class Runner:
         for v in VIEWS:
             if o[v] != sv[v]:
                 extra = dict(view=v)
+                if self.dialogs and v in ("sp", "cy"):
+                    extra["application_settings_of_the_request"] = dict(psd_nperseg=self.rp_cfg[0], psd_normalized=self.rp_cfg[1], rfc_nbins=self.rp_cfg[2])
                 if v == "sp" and "?" in o[v] and self.rp is not None:
                     extra["detail"] = self.spectrum_detail()
-                self.fails.append(("O3 when idle the %s shows the series and settings of the most recent display request" % names[v], sv[v], o[v],
-                                   extra))
+                self.fails.append(("O3 when idle the %s shows the series and settings of the most recent display request%s" % (
+                    names[v], " (application settings as the user left them in File > Settings)" if self.dialogs and v in ("sp", "cy") else ""),
+                    sv[v], o[v], extra))
             elif sv[v] != "-" and (v, sv[v]) not in self.lib_checked:
                 # right series and settings as far as the workers' own functions go: the drawn numbers must also be the numbers the library
                 # proper (TimeSeries methods, qats.app.funcs not involved) returns for these series and settings
@@ -1049,6 +1197,16 @@ def _calc_order(pattern):
     return seq
 
 
+C5 = ["cmp:0"] * 5          # read worker, then the four calculation workers, first-in first-out
+
+
+def _flat(h):
+    out = []
+    for e in h:
+        out += e if isinstance(e, list) else [e]
+    return out
+
+
 FIXED = [
     # serial use
     ["imp:1", "cmp:0", "chk:0:1", "chk:2:1", "dsp", "cmp:0", "cmp:0", "cmp:0", "cmp:0", "cmp:0"],
@@ -1087,10 +1245,29 @@ FIXED = [
      "cmp:0", "cmp:0", "cmp:0"],
     # statistics that are exactly zero (min of series 2.5, max of series 3.6) are shown as 0
     ["imp:2,3", "cmp:0", "all", "dsp", "cmp:0", "cmp:0", "cmp:0", "cmp:0", "cmp:0", "mn:1", "dsp", "cmp:0", "cmp:0", "cmp:0", "cmp:0", "cmp:0"],
+    # select all / unselect all / tick while a list filter hides EARLIER rows (listed row i is not row i of the list), filter erased or not
+    ["imp:1", "cmp:0", "all", "pat:n3", "non", "pat:-", "dsp", C5, "non", "pat:N2", "all", "pat:n3", "all", "pat:n2", "non", "dsp",
+     "pat:-", "dsp", "cmp:0", "cmp:3", "cmp:1", "cmp:0", "cmp:0"],
+    ["imp:1,2", "cmp:0", "pat:f2", "all", "pat:n5", "non", "chk:0:1", "chk:0:0", "pat:-", "dsp", C5, "all", "pat:n4", "non", "dsp", "pat:f1", "non",
+     "pat:-", "dsp", C5],
+    # a failed import (loaded file, missing file, new + loaded) between ticking and display: the ticks and the request are those of the user
+    ["imp:1,2", "cmp:0", "chk:1:1", "chk:3:1", "imp:2", "cmp:0", "dsp", C5, "imp:9", "cmp:0", "drop:3,1", "cmp:0", "tw:1", "dsp", C5,
+     "imp:3", "cmp:0", "dsp"],
+    # files dropped on the window instead of File > Import
+    ["drop:2", "cmp:0", "all", "drop:2", "cmp:0", "dsp", C5, "drop", "drop:3", "cmp:0", "chk:2:1", "dsp", C5],
+    # File > Settings: accepted without touching anything, cancelled after edits, accepted with a normalised spectrum / shorter segments /
+    # another number of bins, accepted untouched again -- every following request shows the numbers for the settings the user chose
+    ["imp:1", "cmp:0", "chk:0:1", "chk:2:1", "set:1:-:-:-", "dsp", C5, "set:0:1:256:25", "dsp", "cmp:0", "cmp:3", "cmp:2", "cmp:1", "cmp:0",
+     "set:1:1:256:-", "dsp", C5, "set:1:-:-:-", "mn:1", "dsp", C5, "set:1:0:-:25", "dsp", C5, "set:1:-:100:10", "set:1:-:-:-", "dsp", C5],
+    ["set:1:1:-:-", "imp:3,2", "cmp:0", "all", "dsp", C5, "clr", "set:1:-:-:-", "imp:2", "cmp:0", "all", "gum", "dsp", "cmp:0", "cmp:0", "cmp:0",
+     "cmp:0", "cmp:0", "cmp:0", "cmp:0"],
     # invalid completion index, ticking a row that is not there
     ["cmp:0", "chk:0:1", "dsp", "gum", "all", "clr", "imp:3", "cmp:3", "cmp:0", "chk:4:1", "chk:0:1", "dsp", "cmp:7", "cmp:0", "cmp:2", "cmp:2", "cmp:0",
      "cmp:0"],
 ]
+
+
+FIXED = [_flat(h) for h in FIXED]
 
 
 def random_history(run, rng, maxdisp):
@@ -1099,8 +1276,10 @@ def random_history(run, rng, maxdisp):
     loaded = set()
     style = rng.choice(["serial", "serial", "mixed", "mixed", "wild"])
     first = rng.choice([[1], [2], [3], [1, 2], [1, 3], [2, 1, 3], [4, 5], [5], [5, 4, 2], [4]])
-    run.do("imp:" + ",".join(map(str, first)))
+    run.do(("imp:" if rng.random() < 0.85 else "drop:") + ",".join(map(str, first)))
     run.do("cmp:0")
+    dialog = rng.random() < 0.4         # this user opens File > Settings now and then (only while no display request is being processed)
+    filt_user = rng.random() < 0.4      # this user works with the list filter
     ndisp = 0
     n = rng.randint(6, 16)
     for _ in range(n):
@@ -1110,14 +1289,32 @@ def random_history(run, rng, maxdisp):
             run.do("cmp:%d" % (rng.randrange(qn) if rng.random() < 0.97 else qn + 1))
             continue
         r = rng.random()
-        if r < 0.22 and nrows:
+        if dialog and not run.busy and rng.random() < 0.18:
+            run.do(random_dialog(rng))
+            continue
+        if filt_user and len(run.srows) > 1 and rng.random() < 0.16:
+            # work on a part of the list: (tick everything,) type (part of) the label of a row -- mostly not the first one -- into the filter
+            # box, tick / untick the listed rows, (erase the text,) (display)
+            if rng.random() < 0.5:
+                run.do("all")
+            k = rng.choice(run.srows[1:])[0]
+            one = len(set(q[0] for q in run.sdb)) <= 1
+            run.do("pat:" + ("%s%d" % (rng.choice("nnN"), k[1]) if (one or k[0] > 3 or rng.random() < 0.6) else "f%d" % k[0]))
+            run.do(rng.choice(["non", "non", "non", "all", "chk:0:0", "chk:0:1"]))
+            if rng.random() < 0.7:
+                run.do("pat:-")
+            if ndisp < maxdisp and rng.random() < 0.6:
+                run.do("dsp")
+                ndisp += 1
+            continue
+        if r < 0.20 and nrows:
             run.do("chk:%d:%d" % (rng.randrange(nrows + (1 if rng.random() < 0.05 else 0)), rng.random() < 0.75))
         elif r < 0.27:
             run.do(rng.choice(["all", "non"]))
         elif r < 0.33:
             run.do("pat:" + rng.choice(["-", "-", "f1", "f2", "f3", "n1", "n2", "n4", "n6", "n7", "n9"]))
         elif r < 0.55 and ndisp < maxdisp:
-            if not visible_ticked(env, run.loaded) and nrows and rng.random() < 0.85:
+            if not run.user_selection() and nrows and rng.random() < 0.85:
                 run.do("chk:%d:1" % rng.randrange(nrows))
             run.do("dsp")
             ndisp += 1
@@ -1130,10 +1327,22 @@ def random_history(run, rng, maxdisp):
             run.do("clr")
         elif r < 0.97:
             fs = rng.choice([[1], [2], [3], [1, 2], [2, 3], [3, 1], [2, 2], [MISSING], [1, MISSING], [4], [5], [4, 5], [5, 3]])
-            run.do("imp:" + ",".join(map(str, fs)))
+            run.do(("imp:" if rng.random() < 0.85 else "drop:") + ",".join(map(str, fs)))
         else:
             run.do("imp")
     run.drain(rng)
+
+
+def random_dialog(rng):
+    """one visit to File > Settings: mostly OK, sometimes Cancel; each widget either left alone or set to a value of the pools"""
+    acc = rng.random() < 0.8
+    r = rng.random()
+    if r < 0.35:
+        vals = ["-", "-", "-"]                                            # looked at the settings, changed nothing
+    else:
+        vals = [rng.choice(["-", "0", "1", "1"]), rng.choice(["-", "-"] + [str(v) for v in SET_NPERSEG + (NPERSEG,)]),
+                rng.choice(["-", "-"] + [str(v) for v in SET_NBINS + (NBINS,)])]
+    return "set:%d:%s" % (acc, ":".join(vals))
 
 
 def two_request_history(run, variant, seq):
@@ -1166,16 +1375,31 @@ def tabs_agree(model, impl):
     return len(a) == len(b) and all(x in y.split("/") for x, y in zip(a, b))
 
 
+def model_events(events):
+    """the history as the orchestration model sees it: a drop is an import; visits to the settings dialog are left out (the model has no
+    application settings: its view tokens name series, window, filter and mode -- the harness decodes the drawn numbers against the
+    settings chosen in the dialog, so the tokens are the same with and without the visit).  -> (events, index in `events` of each)"""
+    out, idx = [], []
+    for j, e in enumerate(events):
+        if e.startswith("set:"):
+            continue
+        out.append("imp" + e[4:] if e.split(":")[0] == "drop" else (e.lower() if e.startswith("pat:N") else e))
+        idx.append(j)
+    return out, idx
+
+
 def compare_with_model(chk, drv, runs):
-    lines = ["gui %s %s" % (CAT_TOKEN, " ".join(r.events)) for r in runs]
+    mev = [model_events(r.events) for r in runs]
+    lines = ["gui %s %s" % (CAT_TOKEN, " ".join(m[0])) for m in mev]
     outs = drv.run(lines, shards=min(core.NCPU, max(1, len(lines) // 300)))
-    for r, o in zip(runs, outs):
+    for r, o, (evs, idx) in zip(runs, outs, mev):
         inp = dict(catalogue=CAT_TOKEN, events=list(r.events))
         toks = o.split()
-        if toks[:1] != ["ok"] or len(toks) - 1 != len(r.events):
-            chk.disagree("gui", inp, o[:300], "history of %d events" % len(r.events))
+        if toks[:1] != ["ok"] or len(toks) - 1 != len(evs):
+            chk.disagree("gui", inp, o[:300], "history of %d events" % len(evs))
             continue
-        for j, (tok, imp) in enumerate(zip(toks[1:], r.digests)):
+        for tok, j in zip(toks[1:], idx):
+            imp = r.digests[j]
             md = parse_digest(tok)
             diff = [k for k in md if md[k] != imp.get(k) and not (k == "tabs" and tabs_agree(md[k], imp.get(k)))]
             chk.count("gui-state")
@@ -1191,6 +1415,10 @@ def run(chk):
         "FigureCanvas.draw is a no-op (pixels are not observed; lines, bars, labels and table cells are)",
         "files f1..f3, run.ts in one directory and sub/run.ts below it (700..1300 samples, time step 0.1 or 0.2, all starting at t=0); plain series names, one of them on two files; settings taken from 3 windows x 3 filters x maxima/minima x show-in-plot",
         "a view's settings are decoded by matching drawn numbers with qats.app.funcs.calculate_* called directly on separately read series",
+        "the selection and the settings of a request are the harness' own record of the user's actions (ticks on listed rows, select / unselect "
+        "all under the filter text, values left in File > Settings), not what the window reports; the settings dialog is driven through its own "
+        "widgets with exec_ replaced by a script (OK / Cancel), and is opened only while no display request is being processed; the "
+        "orchestration model does not see the dialog (its tokens do not depend on segment length / normalisation / number of bins)",
         "library reference of the spectrum view: TimeSeries.psd(twin, filterargs, resample=dt, taperfrac=0.1, nperseg=min(20000, length)), of the "
         "statistics: TimeSeries.stats(statsdur=10800, quantiles=(0.37, 0.57, 0.9)) -- the documented choices of the application",
     ]
@@ -1249,7 +1477,7 @@ def run(chk):
                 env.always_fresh = True
         chk.sample(dict(events=FIXED[8], final={k: runs[8].digests[-1][k] for k in ("tr", "tb", "rp")}))
         nrand = 50 if chk.quick else 350
-        budget = 24 if chk.quick else 110
+        budget = 27 if chk.quick else 110
         for i in range(nrand):
             if time.time() - t0 > budget:
                 chk.notes.append("random histories stopped at %d (time budget)" % i)
@@ -1288,7 +1516,8 @@ def replay(rp):
         env = Env()
         try:
             chk = core.Check("C19", "quick", 1)
-            env.container_check(chk, [tuple(int(v) for v in k.split(".")) for k in inp["keys"]], int(inp["twin"]), int(inp["filt"]), bool(inp.get("minima")))
+            env.container_check(chk, [tuple(int(v) for v in k.split(".")) for k in inp["keys"]], int(inp["twin"]), int(inp["filt"]), bool(inp.get("minima")),
+                                cfg=tuple(inp.get("cfg") or DEFAULT_CFG))
             for f in chk.failing[:8]:
                 print("FAILS: %s\n   input %s\n   series %s\n   expected %s\n   observed %s" % (f["oracle"], f["input"], f.get("series"), f["expected"], f["observed"]))
             print("replay: %d failing clause(s)" % len(chk.failing))
